@@ -138,12 +138,15 @@ class Tracker:
                             self.viol.append(("C12", f"second frame with id {fid} on conn {k}", t))
                     if n == "IDENTIFY_ACK" and k == k0:
                         for (kind, params, pl) in sent:
-                            if kind == "IDENTIFY" and "username" in params:
+                            if kind == "IDENTIFY" and "username" in params and b"\\" not in params["username"]:
                                 self.spelling[params["username"]] = fget(f, "nid")      # what the server makes of this spelling
+                                # (escaped spellings contain blanks, which this tokenizer splits at: not learned, not judged)
                     if n == "ERROR" and fget(f, "reason") == b"USERNAME_IN_USE" and k == k0:
                         for (kind, params, pl) in sent:
                             if kind == "IDENTIFY" and "username" in params:
                                 raw = params["username"]
+                                if b"\\" in raw:
+                                    continue
                                 want = self.spelling.get(raw) or (raw + b"@" + domain if raw.isalnum() else None)
                                 if want is None:
                                     continue     # a spelling the server has not normalised for us yet (Unicode padding, quoting)
